@@ -7,7 +7,18 @@ generated model against the driver's expressions (symbolic, exact points) and th
 compared numerically (jacobian, grad, diff_jacobian, grad_jacobian, grad_grad - row i*nP+j, column k = d2f_i/dtheta_j dtheta_k -,
 transitionJacobian/Mean/Var).  Direct oracle (no Lean, no sympy): 50-digit central finite differences of the
 harness interpreter's own right-hand side / rate vector.
+
+History / input-form / second-instance probes as in C01 (fixed by the case JSON, judged by the same finite-difference
+oracle; the modelled derivative objects are functions of the definition, the parameter values and (x, t) only): every
+array returned by the nine evaluators is KEPT and judged again after all later calls (3 points incl. an integer-valued
+one with zero states, parameter re-assignment and restoration at a fixed (x, t), second instance, deep copy), the caller
+then overwrites the kept arrays and evaluates again; x / t / parameters in varied container and dtype forms, checked
+unmodified; a second live instance with the same names (parameter declaration permuted, state declaration reversed,
+derived parameter redefined, last event added incrementally with the first instance evaluating in between) evaluated
+alternately with the first; copy.deepcopy as a third instance; the solver-facing twins jacobian_T / grad_T /
+diff_jacobian_T / grad_jacobianT / ode_T.
 """
+import copy
 import json
 import random
 from fractions import Fraction
@@ -31,7 +42,9 @@ LEAN = {"module": "Pygom.Props.C03",
         "extra_modules": ["Pygom.Lemmas.Deriv"]}
 BUDGET = {"quick": {"models": 120}, "thorough": {"models": 2500}}
 RULE = ("random model definitions as in C01 (events routed through the event= keyword so that event order is the declared order); "
-        "2 exact points each, away from singularities; non-trivial = some Jacobian entry and some gradient entry non-zero")
+        "3 exact points each (one integer valued with zero states) in varied container / dtype forms, away from singularities, results "
+        "kept and re-judged after the later calls, parameter re-assignment / restoration, a permuted second instance built in stages and "
+        "evaluated alternately, a deep copy, the _T twins; non-trivial = some Jacobian entry and some gradient entry non-zero")
 ASSUMPTIONS = ["sympy.diff / Matrix.jacobian are translation-validated per model against the verified Expr.diff, not proved",
                "finite-difference oracle: central differences in 50-digit arithmetic (h=1e-15 first order, 1e-10 second order)"]
 TRUSTED = ["harness generator, printer and interpreter", "Lean driver JSON codec"]
@@ -49,7 +62,7 @@ def make_cases(rng, tier, budget):
     for i in range(budget["models"]):
         r = random.Random(rng.getrandbits(64))
         spec, meta = gen.gen_model(r, min_events=1, routes=("event", "event_eq", "event_bare"))
-        pts = [gen.rand_point(r, meta) for _ in range(N_POINTS - 1)] + [gen.rand_point(r, meta, integer=True)]
+        pts = [gen.rand_point(r, meta) for _ in range(N_POINTS - 1)] + [gen.rand_point(r, meta, integer=True, zeros=True)]
         perm = list(range(len(meta["params"])))
         r.shuffle(perm)
         probe = {"forms": gen_forms(r, pts, meta["states"]), "reassign_form": r.choice(["list", "tuple", "ndarray", "dict_name", "pairs"]),
@@ -94,7 +107,7 @@ def mat_close(A, B, rel=1e-7, abs_=1e-8):
 EVALS = ("jacobian", "grad", "diff_jacobian", "grad_jacobian", "grad_grad", "transitionJacobian", "transitionMean", "transitionVar")
 TOL = {"jacobian": 1e-7, "grad": 1e-7, "diff_jacobian": 1e-6, "grad_jacobian": 1e-6, "grad_grad": 1e-6, "transitionJacobian": 1e-7,
        "transitionMean": 1e-7, "transitionVar": 1e-7, "ode": 1e-9}
-HISTORY_LABELS = ("reassigned", "restored", "after-sibling", "after-caller-wrote-into-results")
+HISTORY_LABELS = ("reassigned", "restored", "after-sibling", "after-copy", "copy-after-original", "after-caller-wrote-into-results")
 
 
 def oracle_all(meta, spec, env, states, params, nE):
@@ -146,6 +159,7 @@ class Session(object):
         self.nz = {"J": False, "G": False, "GG": False}
         self.dead = False
         self.model = None
+        self.cur = {}
         n_then = len(spec.get("then", []))
         staged = partner is not None and n_then > 0 and all(o["op"] in pymodel.SETTER for o in spec["then"])
         if not staged:
@@ -180,6 +194,7 @@ class Session(object):
         x = fl(env, states); t = float(env["t"])
         try:
             m.parameters = fl(env, params)
+            self.cur = {p: env[p] for p in params}
         except Exception:
             self.tags.append("touch:parameters-not-settable")
             return
@@ -271,6 +286,7 @@ class Session(object):
                 th = as_params(env, self.params, form["p"])
                 fth = freeze(th)
                 model.parameters = th
+                self.cur = {p: env[p] for p in self.params}
                 tags.append("p:" + form["p"])
                 if freeze(th) != fth:
                     viol.append({"what": self.who + "the object assigned to model.parameters was modified", "signature": "input-modified:parameters:" + form["p"],
@@ -305,6 +321,48 @@ class Session(object):
         self.steps.append(st)
         self.judge(st, vals, "")
         return len(mism) + len(viol) == n0
+
+    def keep_params(self, env):
+        """(x, t) of `env` with the parameter values this instance currently holds"""
+        e = dict(env); e.update(self.cur)
+        return e
+
+    def clone(self):
+        """copy.deepcopy of the configured, already evaluated model as one more live instance"""
+        C = object.__new__(Session)
+        C.__dict__.update(self.__dict__)
+        C.tags, C.mism, C.viol, C.kept, C.steps = [], [], [], Kept(), []
+        C.nz = dict(self.nz)
+        C.who = "copy.deepcopy of the model: "
+        try:
+            C.model = copy.deepcopy(self.model)
+        except Exception as exc:
+            self.tags.append("deepcopy-raised:%s" % type(exc).__name__)
+            return None
+        C.cur = dict(self.cur)
+        return C
+
+    def twins(self, env, label):
+        """the solver-facing twins f_T(t, x) at a point whose oracle is known"""
+        if self.dead or self.mism or self.viol:
+            return
+        key = json.dumps({k: str(v) for k, v in env.items()}, sort_keys=True)
+        if key not in self.cache:
+            return
+        O = self.cache[key][1]
+        x = fl(env, self.states); t = float(env["t"])
+        for twin, name in (("ode_T", "ode"), ("jacobian_T", "jacobian"), ("grad_T", "grad"), ("diff_jacobian_T", "diff_jacobian"),
+                           ("grad_jacobianT", "grad_jacobian")):
+            try:
+                got = np.array(getattr(self.model, twin)(t, x), float).reshape(self.shape[name])
+            except Exception as exc:
+                self.viol.append({"what": self.who + "%s raised %s: %s" % (twin, type(exc).__name__, str(exc)[:200]),
+                                  "signature": "evaluator-raise:%s:%s" % (twin, type(exc).__name__), "detail": ""})
+                return
+            if not mat_close(got, O[name].reshape(got.shape), rel=TOL[name], abs_=TOL[name]):
+                self.viol.append({"what": self.who + "[%s] %s(t,x) is not the derivative / definition (finite-difference oracle)" % (label, twin),
+                                  "signature": "%s:not-derivative" % twin, "detail": "got %s expected %s" % (got.tolist(), O[name].tolist())})
+        self.tags.append("twins")
 
     def judge(self, st, vals, kind):
         label, pt = st["label"], st["pt"]
@@ -384,13 +442,26 @@ def run_case(case):
             if B.open():
                 okB = B.step(pts[0], forms[0], "point0", symbolic=True)
                 # the first instance again, WITHOUT touching its parameters (they are still those of point 0)
-                env_as = dict(pts[1]); env_as.update({p: pts[0][p] for p in A.params})
-                okA = A.step(env_as, forms[1], "after-sibling", set_params=False) if okB else False
+                okA = A.step(A.keep_params(pts[1]), forms[1], "after-sibling", set_params=False) if okB else False
                 if okA and okB:
                     B.step(pts[1], forms[1], "point1") and A.step(pts[1], forms[1], "after-sibling")
+    C = None
+    if ok and probe and not (A.mism or A.viol) and (B is None or not (B.mism or B.viol)):
+        # the solver-facing twins, and a deep copy of the evaluated model as one more live instance: the copy gets other
+        # parameter values, the original is evaluated again without being touched, and the other way round
+        A.twins(pts[1] if A.cur == {p: pts[1][p] for p in A.params} else pts[0] if A.cur == {p: pts[0][p] for p in A.params} else {}, "twin")
+        C = A.clone()
+        if C is not None:
+            A.tags.append("deepcopy_checked")
+            C.step(pts[2 % len(pts)], forms[2 % len(pts)], "copy-point2") and A.step(A.keep_params(pts[0]), forms[0], "after-copy", set_params=False) \
+                and C.step(C.keep_params(pts[2 % len(pts)]), forms[0], "copy-after-original", set_params=False)
     A.finish()
     if B is not None and not B.dead:
         B.finish()
+    if C is not None:
+        C.finish()
+        A.viol += [dict(v, signature="deepcopy:" + v.get("signature", "")) for v in C.viol]
+        A.mism += [dict(m_, what="deepcopy:" + m_["what"]) for m_ in C.mism]
     if not (A.mism or A.viol) and (B is None or not (B.mism or B.viol)):
         A.after_scribble(pts[1 % len(pts)], forms[1 % len(pts)], "after-caller-wrote-into-results")
     if A.nz["GG"]:
